@@ -30,6 +30,8 @@ items=[
  ("C07_udiv_long","DivProof.v","okm_udivider_long","Long division (Yao): every width n >= 1, every dividend, every divisor <> 0: q = a / b, r = a mod b."),
  ("C07_udiv_long_eval","StructDiv.v","udivider_long_eval","EVALUATED long divider, every width n >= 1."),
  ("C07_udiv_yao","DivProof.v","okm_new_udivider_yao","NewUDivider under the Yao target."),
+ ("C07_udiv_restoring","Div2Proof.v","okm_udivider_restoring","NewUDividerRestoring: BOTH targets, every pair of operand widths (n = max >= 1), EVERY quotient and remainder width (0 = nil, narrower, wider), every dividend, EVERY divisor: the low n quotient wires carry (a / b) mod 2^len(q), the low n remainder wires (a mod b) mod 2^len(r); for b = 0: quotient 2^n - 1 (all ones), remainder = a.  Destination wires at positions >= n are left undriven by this builder."),
+ ("C07_udiv_array","Div2Proof.v","okm_udivider_array","NewUDividerArray: BOTH targets, every pair of operand widths (n = max >= 1), EVERY quotient and remainder width, every dividend, EVERY divisor: the returned quotient vector is (a / b) mod 2^len(q) and the returned remainder vector (a mod b) mod 2^len(r) (positions >= n are replaced by the zero wire); for b = 0: quotient 2^n - 1, remainder = a."),
  ("C07_idiv_yao","DivProof.v","okm_new_idivider","NewIDivider (Yao), equal widths, divisor <> 0, repository sign rule (testsuite/lang/modi.mpcl): r = |a| mod |b| never negated, q = |a| / |b| negated iff the signs differ."),
  ("C07_idiv_yao_eval","StructDiv.v","new_idivider_yao_eval","EVALUATED signed divider, every width n >= 1."),
  ("C07_gmwdiv_w7_refuted","GmwdivProof.v","gmw_divider_w7_refuted","REFUTED (known finding): the GMW Goldschmidt divider is not exact: width 7, 127 / 13 evaluates to q = 11, r = 112."),
@@ -80,6 +82,8 @@ items=[
  ("C07_hamming","HammingProof.v","okm_hamming","Hamming distance, both targets, every width (max >= 2)."),
 ]
 optional=[
+ ("C07_udiv_restoring_eval","StructDiv2.v","udivider_restoring_eval","EVALUATED restoring divider in the harness wire layout, both targets, every width n >= 1, every initial assignment (zero divisor included): single-assignment, defined-before-use, exact quotient and remainder."),
+ ("C07_udiv_array_eval","StructDiv2.v","udivider_array_eval","EVALUATED array divider in the harness wire layout, both targets, every width n >= 1, every initial assignment (zero divisor included): single-assignment, defined-before-use, exact quotient and remainder."),
  ("C07_mult_array_eval","StructMult.v","array_multiplier_eval","EVALUATED array multiplier, every operand and result width."),
  ("C07_mult_karatsuba_eval","StructMult.v","karatsuba_eval","EVALUATED Karatsuba multiplier, every threshold >= 3, every width."),
  ("C07_mult_yao_eval","StructMult.v","new_multiplier_yao_eval","EVALUATED NewMultiplier (Yao: Karatsuba/array), every width."),
@@ -142,7 +146,7 @@ hdrtxt='''(* Props/C07.v — property C07: arithmetic and logic circuit builders
 From Coq Require Import NArith ZArith List Bool Arith.
 From Mpc Require Import Gen.Consts Gen.Thresholds Builders.Emit Builders.EmitProof Builders.StructProof
   Builders.Adder Builders.Sub Builders.Mux Builders.Cmp Builders.Bitwise Builders.Index
-  Builders.Hamming Builders.Mult Builders.Gmwdiv Builders.Div Builders.EvalFast Builders.RunC07
+  Builders.Hamming Builders.Mult Builders.Gmwdiv Builders.Div Builders.Div2 Builders.EvalFast Builders.RunC07
   %s.
 Import ListNotations.
 From Mpc Require Gen.State Base.StateExpected Base.StateCheck Base.StatePkgs.
